@@ -322,7 +322,7 @@ def run_case(case, ctx):
         ctx.count("force_rows_skipped_at_breakpoint")
         continue
       f_ref = -r * d_ref
-      if abs(f_ref) > 1e-6:
+      if not (abs(f_ref) <= 1e-6):
         any_force = True
       slack = 0 if o.analytic else o.num_deriv_slack(r) * r
       try:
